@@ -154,7 +154,7 @@ func (w *world) Run(t *rt.Tape, trace bool) *core.Result {
 	var circ *circuit.Circuit
 	var src string
 	deep := false
-	if t.Choose(rt.SGen, map[string]int{"thorough": 100}[w.tier]+map[bool]int{true: 400}[w.tier != "thorough"]) == 0 {
+	if t.Choose(rt.SGen, map[string]int{"thorough": 100}[w.tier]+map[bool]int{true: 200}[w.tier != "thorough"]) == 0 {
 		deep = true
 		// a long sequential computation: an AND depth around 2^16 (iterated hashes and modular
 		// exponentiations compile to such chains; every level is a round of the protocol)
@@ -271,6 +271,9 @@ func (w *world) Run(t *rt.Tape, trace bool) *core.Result {
 		dir.LatRand = t.Choose(rt.SGen, 2) == 1
 	}
 	net.NewPipeConfig = func(from, to string) simnet.PipeConfig { return simnet.PipeConfig{AB: dir, BA: dir} }
+	if t.Choose(rt.SGen, 4) == 0 {
+		net.AcceptReorder = 1 + t.Choose(rt.SGen, 3) // accept queues that do not keep the dialling order
+	}
 	dialLat := t.Choose(rt.SGen, 3)
 	net.DialLatency = func(from, to string) time.Duration {
 		switch dialLat {
